@@ -23,7 +23,7 @@ ASSUMPTIONS = [
     "lists are used with the condition/action family of their own type; a regex list has one member (other uses are outside the domain)",
     "reference readers of the three vendors' policy / list syntaxes are in this module (namespaces per list kind)",
 ]
-FLOORS = {"quick": {"generator_runs": 2000, "policy_runs": 500, "refs_checked": 1000, "constructs_rejected": 100, "actions_segmented": 1000, "combined_operation_actions": 100, "wildcard_only_as_path_filter_refs": 50, "shared_policy_inputs_checked": 800},
+FLOORS = {"quick": {"generator_runs": 2000, "policy_runs": 500, "refs_checked": 1000, "constructs_rejected": 100, "actions_segmented": 1000, "combined_operation_actions": 100, "wildcard_only_as_path_filter_refs": 50, "shared_policy_inputs_checked": 800, "reused_generator_objects": 1500, "reused_generator_objects_after_a_refused_run": 100, "annotated_runs": 1500},
           "thorough": {"generator_runs": 100000, "policy_runs": 25000, "refs_checked": 50000, "constructs_rejected": 5000, "actions_segmented": 50000, "combined_operation_actions": 5000, "wildcard_only_as_path_filter_refs": 2500, "shared_policy_inputs_checked": 40000}}
 VENDORS = ["huawei", "arista", "cumulus"]
 MODELS = {"huawei": ("Huawei CE6870-48S6CQ-EI", "VRP V200R001C00SPC700"), "arista": ("Arista DCS-7368", "EOS 4.29.9.1M"),
@@ -420,6 +420,59 @@ MECH = {
 }
 
 
+def check_reuse_and_annotate(seed, vendor, program, ents, dev, acc, w):
+    """(5) one generator object serves several devices one after the other (also after a run that was refused): the result for a device is
+    what a fresh object gives; (6) with annotate=True (`annet gen --annotate`) the configuration, annotations removed, is the same"""
+    from annet.generators import _run_partial_generator
+    from annet.types import GeneratorPartialRunArgs
+    from annet.annlib.lib import strip_annotation
+    from vf.util import plain
+    rng2 = random.Random(seed ^ 0x600D)
+    good = gen_safe_program(rng2, ents, vendor)
+
+    def strip(tree):
+        return [[strip_annotation(r), strip(c)] for r, c in tree]
+    for name in ("policy", "prefix"):
+        try:
+            fresh = _run_partial_generator(make_generators(vendor, good, ents)[name], GeneratorPartialRunArgs(dev, use_acl=True))
+        except Exception:
+            return False  # the second program is not expressible either: nothing to compare
+        if fresh is None:
+            continue
+        g = make_generators(vendor, program, ents)[name]
+        first_failed = False
+        try:
+            _run_partial_generator(g, GeneratorPartialRunArgs(dev, use_acl=True))
+        except Exception:
+            first_failed = True
+        donor = make_generators(vendor, good, ents)[name]
+        g.get_policies = donor.get_policies  # the object now meets another device (other policies)
+        try:
+            again = _run_partial_generator(g, GeneratorPartialRunArgs(dev, use_acl=True))
+        except Exception as e:
+            acc.violation("C14/%s/%s/reused-generator-object-fails" % (vendor, name), "a generator object that served another device before fails where a fresh object succeeds",
+                          dict(w, second_program=good, first_run_failed=first_failed, error=repr(e)[:200]))
+            return True
+        acc.count("reused_generator_objects")
+        if first_failed:
+            acc.count("reused_generator_objects_after_a_refused_run")
+        if plain(again.config) != plain(fresh.config):
+            acc.violation("C14/%s/%s/result-depends-on-earlier-run-of-the-object" % (vendor, name), "a generator object that served another device before gives other lines than a fresh object",
+                          dict(w, second_program=good, first_run_failed=first_failed, reused=plain(again.config)[:12], fresh=plain(fresh.config)[:12]))
+            return True
+        try:
+            ann = _run_partial_generator(make_generators(vendor, good, ents)[name], GeneratorPartialRunArgs(dev, use_acl=True, annotate=True))
+        except Exception as e:
+            acc.violation("C14/%s/%s/annotated-run-fails" % (vendor, name), "the run that succeeds plainly fails with annotate=True", dict(w, second_program=good, error=repr(e)[:200]))
+            return True
+        acc.count("annotated_runs")
+        if strip(plain(ann.config)) != plain(fresh.config):
+            acc.violation("C14/%s/%s/annotated-run-differs" % (vendor, name), "with annotate=True the generated configuration (annotations removed) is not the one generated without",
+                          dict(w, second_program=good, annotated=plain(ann.config)[:12], plain=plain(fresh.config)[:12]))
+            return True
+    return False
+
+
 def check_case(seed, acc):
     from annet.generators import _run_partial_generator, GeneratorError
     from annet.types import GeneratorPartialRunArgs
@@ -585,6 +638,10 @@ def check_case(seed, acc):
         if missing:
             acc.violation("C14/%s/undefined-reference/%s" % (vendor, missing[0][0]), "a policy statement refers to a named list that the matching list generator does not define under that name",
                           dict(w, missing=[list(m) for m in missing], defined=sorted(map(list, defs))[:30]))
+            return w
+    if vendor != "cumulus":
+        bad = check_reuse_and_annotate(seed, vendor, program, ents, dev, acc, w)
+        if bad:
             return w
     # the policies handed to the generators are inputs: every generator may read them, none may change them
     sh = next(iter(gens.values())).vf_shared
